@@ -1,35 +1,624 @@
+/-
+  Lemmas for C16 (MQTT codec). The seven theorems re-exported by Emitter/Props/C16.lean are
+  `encLen_length`, `decodeLen_encLen`, `readString_writeString`, `decode_encodeWire`,
+  `encode_of_fits`, `encode_publish_no_panic`, `decode_oversize`; everything else is a helper.
+  `decode_oversize` carries one hypothesis more than originally stated (see its docstring).
+-/
 import Emitter.Model.Mqtt
 namespace Emitter.Mqtt
 open Emitter
 
+/-! ## byte-level facts -/
+
+theorem forall_byte {P : UInt8 → Prop} (h : ∀ i : Fin 256, P (UInt8.ofNat i.val)) (b : UInt8) : P b := by
+  have := h ⟨b.toNat, b.toNat_lt⟩
+  simpa using this
+
+theorem and7f (b : UInt8) : (b &&& 0x7f).toUInt32 = UInt32.ofNat (b.toNat % 128) := by
+  revert b; apply forall_byte; decide +kernel
+
+theorem and80 (b : UInt8) : ((b &&& 0x80) != 0) = decide (128 ≤ b.toNat) := by
+  revert b; apply forall_byte; decide +kernel
+
 theorem encLen_length (n : Nat) (h : n < 268435456) :
     (encLen n).length = if n < 128 then 1 else if n < 16384 then 2 else if n < 2097152 then 3 else 4 := by
-  sorry
+  unfold encLen
+  by_cases h1 : n < 128
+  · simp [encLenF, h1]
+  · by_cases h2 : n < 16384
+    · have : n / 128 < 128 := by omega
+      simp [encLenF, h1, h2, this]
+    · by_cases h3 : n < 2097152
+      · have a1 : ¬ n / 128 < 128 := by omega
+        have a2 : n / 128 / 128 < 128 := by omega
+        simp [encLenF, h1, h2, h3, a1, a2]
+      · have a1 : ¬ n / 128 < 128 := by omega
+        have a2 : ¬ n / 128 / 128 < 128 := by omega
+        have a3 : n / 128 / 128 / 128 < 128 := by omega
+        simp [encLenF, h1, h2, h3, a1, a2, a3]
+
+theorem decodeLen_last (b : UInt8) (rest : Bytes) (mult len : UInt32) (hb : b.toNat < 128) :
+    decodeLen (b :: rest) mult len = .ok (len + UInt32.ofNat b.toNat * mult, rest) := by
+  have : ¬ 128 ≤ b.toNat := by omega
+  have e : b.toNat % 128 = b.toNat := by omega
+  simp only [decodeLen, and7f, and80, e]
+  simp [this]
+
+theorem decodeLen_cont (b : UInt8) (rest : Bytes) (mult len : UInt32) (hb : 128 ≤ b.toNat) :
+    decodeLen (b :: rest) mult len = decodeLen rest (mult * 128) (len + UInt32.ofNat (b.toNat % 128) * mult) := by
+  simp only [decodeLen, and7f, and80]
+  simp [hb]
 
 theorem decodeLen_encLen (n : Nat) (h : n < 268435456) (rest : Bytes) :
     decodeLen (encLen n ++ rest) 1 0 = .ok (UInt32.ofNat n, rest) := by
-  sorry
+  unfold encLen
+  by_cases h1 : n < 128
+  · simp only [encLenF, h1, if_true, List.cons_append, List.nil_append]
+    rw [decodeLen_last _ _ _ _ (by simp [UInt8.toNat_ofNat']; omega)]
+    congr 2
+    apply UInt32.toNat.inj
+    simp [UInt32.toNat_ofNat', UInt8.toNat_ofNat']
+    omega
+  · have m1 : (1 : UInt32) * 128 = 128 := by decide
+    have m2 : (128 : UInt32) * 128 = 16384 := by decide
+    have m3 : (16384 : UInt32) * 128 = 2097152 := by decide
+    by_cases h2 : n < 16384
+    · have a1 : n / 128 < 128 := by omega
+      simp only [encLenF, h1, a1, if_true, if_false, List.cons_append, List.nil_append]
+      rw [decodeLen_cont _ _ _ _ (by simp [UInt8.toNat_ofNat']; omega),
+          decodeLen_last _ _ _ _ (by simp [UInt8.toNat_ofNat']; omega)]
+      congr 2
+      apply UInt32.toNat.inj
+      simp [UInt32.toNat_ofNat', UInt8.toNat_ofNat', m1]
+      omega
+    · by_cases h3 : n < 2097152
+      · have a1 : ¬ n / 128 < 128 := by omega
+        have a2 : n / 128 / 128 < 128 := by omega
+        simp only [encLenF, h1, a1, a2, if_true, if_false, List.cons_append, List.nil_append]
+        rw [decodeLen_cont _ _ _ _ (by simp [UInt8.toNat_ofNat']; omega),
+            decodeLen_cont _ _ _ _ (by simp [UInt8.toNat_ofNat']; omega),
+            decodeLen_last _ _ _ _ (by simp [UInt8.toNat_ofNat']; omega)]
+        congr 2
+        apply UInt32.toNat.inj
+        simp [UInt32.toNat_ofNat', UInt8.toNat_ofNat', m1, m2]
+        omega
+      · have a1 : ¬ n / 128 < 128 := by omega
+        have a2 : ¬ n / 128 / 128 < 128 := by omega
+        have a3 : n / 128 / 128 / 128 < 128 := by omega
+        simp only [encLenF, h1, a1, a2, a3, if_true, if_false, List.cons_append, List.nil_append]
+        rw [decodeLen_cont _ _ _ _ (by simp [UInt8.toNat_ofNat']; omega),
+            decodeLen_cont _ _ _ _ (by simp [UInt8.toNat_ofNat']; omega),
+            decodeLen_cont _ _ _ _ (by simp [UInt8.toNat_ofNat']; omega),
+            decodeLen_last _ _ _ _ (by simp [UInt8.toNat_ofNat']; omega)]
+        congr 2
+        apply UInt32.toNat.inj
+        simp [UInt32.toNat_ofNat', UInt8.toNat_ofNat', m1, m2, m3]
+        omega
+
+/-! ## the Outcome monad -/
+
+@[simp] theorem ok_bind {α β} (a : α) (f : α → Outcome β) : (Outcome.ok a >>= f) = f a := rfl
+theorem pure_bind' {α β} (a : α) (f : α → Outcome β) : ((pure a : Outcome α) >>= f) = f a := rfl
+@[simp] theorem pure_eq_ok {α} (a : α) : (pure a : Outcome α) = Outcome.ok a := rfl
+@[simp] theorem map_ok {α β} (f : α → β) (a : α) : (Outcome.ok a).map f = Outcome.ok (f a) := rfl
+
+/-! ## field readers, stated relative to the unread suffix `data.drop pos` -/
+
+theorem drop_add_of_drop {data : Bytes} {pos : Nat} {x post : Bytes} (k : Nat)
+    (hd : data.drop pos = x ++ post) (hk : x.length = k) : data.drop (pos + k) = post := by
+  rw [← List.drop_drop, hd, ← hk]
+  simp
+
+theorem readByte_of_drop {data : Bytes} {pos : Nat} {a : UInt8} {post : Bytes}
+    (hd : data.drop pos = a :: post) : readByte data pos = .ok (a, pos + 1) := by
+  have : data[pos]? = some a := by
+    have := List.getElem?_drop (xs := data) (i := pos) (j := 0)
+    rw [hd] at this; simpa using this.symm
+  simp [readByte, this]
+
+theorem readU16_of_drop {data : Bytes} {pos : Nat} {a b : UInt8} {post : Bytes}
+    (hd : data.drop pos = a :: b :: post) : readU16 data pos = .ok (be16 a b, pos + 2) := by
+  have h0 : data[pos]? = some a := by
+    have := List.getElem?_drop (xs := data) (i := pos) (j := 0)
+    rw [hd] at this; simpa using this.symm
+  have h1 : data[pos + 1]? = some b := by
+    have := List.getElem?_drop (xs := data) (i := pos) (j := 1)
+    rw [hd] at this; simpa using this.symm
+  simp [readU16, h0, h1]
+
+theorem readString_of_drop {data : Bytes} {pos : Nat} {v post : Bytes}
+    (hd : data.drop pos = writeString v ++ post) (hv : v.length < 65536) :
+    readString data pos = .ok (v, pos + 2 + v.length) := by
+  have hd' : data.drop pos = UInt8.ofNat ((UInt16.ofNat v.length).toNat / 256) ::
+      UInt8.ofNat (UInt16.ofNat v.length).toNat :: (v ++ post) := by
+    rw [hd]; simp [writeString, putBe16]
+  have hl : (UInt16.ofNat v.length).toNat = v.length := by
+    simp [UInt16.toNat_ofNat']; omega
+  have hlen : data.length - pos = 2 + v.length + post.length := by
+    have := congrArg List.length hd'
+    simp at this; omega
+  have hdrop : data.drop (pos + 2) = v ++ post := by
+    rw [← List.drop_drop, hd']; simp
+  unfold readString
+  rw [readU16_of_drop hd', be16_putBe16]
+  simp only [hl]
+  have : ¬ (v.length + (pos + 2) > data.length) := by omega
+  simp [this, hdrop]
 
 theorem readString_writeString (v pre post : Bytes) (h : v.length < 65536) :
     readString (pre ++ writeString v ++ post) pre.length = .ok (v, pre.length + 2 + v.length) := by
-  sorry
+  exact readString_of_drop (post := post) (by simp) h
+
+
+/-! ## fixed header -/
+
+theorem firstByte_fin : ∀ (i : Fin 16) (j : Fin 4) (d r : Bool),
+    (firstByte (UInt8.ofNat i.val) ⟨d, UInt8.ofNat j.val, r⟩ &&& 0xf0) >>> 4 = UInt8.ofNat i.val ∧
+    decide ((firstByte (UInt8.ofNat i.val) ⟨d, UInt8.ofNat j.val, r⟩ &&& 0x08) > 0) = d ∧
+    (firstByte (UInt8.ofNat i.val) ⟨d, UInt8.ofNat j.val, r⟩ &&& 0x06) >>> 1 = UInt8.ofNat j.val ∧
+    decide ((firstByte (UInt8.ofNat i.val) ⟨d, UInt8.ofNat j.val, r⟩ &&& 0x01) > 0) = r := by
+  decide
+
+theorem firstByte_facts (ty : UInt8) (h : Header) (hty : ty < 16) (hq : h.qos < 4) :
+    (firstByte ty h &&& 0xf0) >>> 4 = ty ∧
+    ({ dup := (firstByte ty h &&& 0x08) > 0, qos := (firstByte ty h &&& 0x06) >>> 1,
+       retain := (firstByte ty h &&& 0x01) > 0 } : Header) = h := by
+  have h1 : ty.toNat < 16 := by simpa [UInt8.lt_iff_toNat_lt] using hty
+  have h2 : h.qos.toNat < 4 := by simpa [UInt8.lt_iff_toNat_lt] using hq
+  have := firstByte_fin ⟨ty.toNat, h1⟩ ⟨h.qos.toNat, h2⟩ h.dup h.retain
+  simp only [UInt8.ofNat_toNat] at this
+  obtain ⟨a, b, c, d⟩ := this
+  refine ⟨a, ?_⟩
+  cases h
+  simp_all
+
+theorem decode_wire (ty : UInt8) (h : Header) (body rest : Bytes) (max : Nat)
+    (hty : ty < 16) (hq : h.qos < 4) (hlen : body.length < 268435456)
+    (hnp : ty ≠ tyPingreq ∧ ty ≠ tyPingresp ∧ ty ≠ tyDisconnect) :
+    decode (wire ty h body ++ rest) max =
+      if body.length > max then .err "too-large"
+      else (decodeBody ty (headerOf ty (firstByte ty h)) body).map (fun p => (p, rest)) := by
+  obtain ⟨n1, n2, n3⟩ := hnp
+  have hl : (UInt32.ofNat body.length).toNat = body.length := by
+    simp [UInt32.toNat_ofNat']; omega
+  unfold wire
+  simp only [List.cons_append, List.append_assoc, decode, decodeLen_encLen _ hlen,
+    (firstByte_facts ty h hty hq).1, hl]
+  have : ¬ (body.length + rest.length < body.length) := by omega
+  simp [n1, n2, n3, this]
+
+
+/-! ## step lemmas: result of a read and the new unread suffix -/
+
+theorem readByte_step {data : Bytes} {pos : Nat} {a : UInt8} {post : Bytes}
+    (hd : data.drop pos = a :: post) :
+    readByte data pos = .ok (a, pos + 1) ∧ data.drop (pos + 1) = post :=
+  ⟨readByte_of_drop hd, drop_add_of_drop (x := [a]) 1 hd rfl⟩
+
+theorem readU16_step {data : Bytes} {pos : Nat} {x : UInt16} {post : Bytes}
+    (hd : data.drop pos = putBe16 x ++ post) :
+    readU16 data pos = .ok (x, pos + 2) ∧ data.drop (pos + 2) = post := by
+  refine ⟨?_, drop_add_of_drop 2 hd rfl⟩
+  have := readU16_of_drop (data := data) (pos := pos) (post := post) (by rw [hd]; rfl)
+  rw [this, be16_putBe16]
+
+theorem readString_step {data : Bytes} {pos : Nat} {v post : Bytes}
+    (hd : data.drop pos = writeString v ++ post) (hv : v.length < 65536) :
+    readString data pos = .ok (v, pos + 2 + v.length) ∧ data.drop (pos + 2 + v.length) = post := by
+  refine ⟨readString_of_drop hd hv, ?_⟩
+  rw [Nat.add_assoc]
+  exact drop_add_of_drop _ hd (by simp [writeString, putBe16]; omega)
+
+theorem optString_step {data : Bytes} {pos : Nat} {v post : Bytes} (f : Bool)
+    (hd : data.drop pos = (if f then writeString v else []) ++ post) (hv : v.length < 65536) :
+    ∃ pos', (if f then readString data pos else pure ([], pos) : Outcome (Bytes × Nat))
+        = .ok (if f then v else [], pos') ∧ data.drop pos' = post := by
+  cases f
+  · exact ⟨pos, by simp, by simpa using hd⟩
+  · have := readString_step (by simpa using hd) hv
+    exact ⟨_, by simpa using this.1, this.2⟩
+
+
+/-! ## CONNECT -/
+
+def flagsOf (u p wr : Bool) (wq : UInt8) (w cs : Bool) : UInt8 :=
+  (b2u u <<< 7) ||| (b2u p <<< 6) ||| (b2u wr <<< 5) ||| (wq <<< 3) ||| (b2u w <<< 2) ||| (b2u cs <<< 1)
+
+theorem flagsOf_fin : ∀ (u p wr w cs : Bool) (j : Fin 4),
+    (flagsOf u p wr (UInt8.ofNat j.val) w cs &&& 128 > 0 ↔ u = true) ∧
+    (flagsOf u p wr (UInt8.ofNat j.val) w cs &&& 64 > 0 ↔ p = true) ∧
+    (flagsOf u p wr (UInt8.ofNat j.val) w cs &&& 32 > 0 ↔ wr = true) ∧
+    (flagsOf u p wr (UInt8.ofNat j.val) w cs >>> 3 &&& 3 = UInt8.ofNat j.val) ∧
+    (flagsOf u p wr (UInt8.ofNat j.val) w cs &&& 4 > 0 ↔ w = true) ∧
+    (flagsOf u p wr (UInt8.ofNat j.val) w cs &&& 2 > 0 ↔ cs = true) := by
+  decide
+
+theorem connectFlags_facts (c : Connect) (hq : c.willQos < 4) :
+    (connectFlags c &&& 128 > 0 ↔ c.usernameFlag = true) ∧
+    (connectFlags c &&& 64 > 0 ↔ c.passwordFlag = true) ∧
+    (connectFlags c &&& 32 > 0 ↔ c.willRetain = true) ∧
+    (connectFlags c >>> 3 &&& 3 = c.willQos) ∧
+    (connectFlags c &&& 4 > 0 ↔ c.willFlag = true) ∧
+    (connectFlags c &&& 2 > 0 ↔ c.cleanSession = true) := by
+  have h2 : c.willQos.toNat < 4 := by simpa [UInt8.lt_iff_toNat_lt] using hq
+  have := flagsOf_fin c.usernameFlag c.passwordFlag c.willRetain c.willFlag c.cleanSession ⟨c.willQos.toNat, h2⟩
+  simp only [UInt8.ofNat_toNat] at this
+  exact this
+
+theorem decodeConnect_connectBody (c : Connect)
+    (h1 : c.protoName.length < 65536) (h2 : c.clientId.length < 65536)
+    (h3 : c.willTopic.length < 65536) (h4 : c.willMessage.length < 65536)
+    (h5 : c.username.length < 65536) (h6 : c.password.length < 65536) (hq : c.willQos < 4) :
+    decodeConnect (connectBody c) = .ok (normal (.connect c)) := by
+  obtain ⟨fu, fp, fwr, fq, fw, fcs⟩ := connectFlags_facts c hq
+  unfold decodeConnect
+  simp only []
+  cases hw : c.willFlag
+  · have d0 : (connectBody c).drop 0 = writeString c.protoName ++ (c.version :: connectFlags c ::
+        (putBe16 c.keepAlive ++ (writeString c.clientId ++
+        ((if c.usernameFlag then writeString c.username else []) ++
+        ((if c.passwordFlag then writeString c.password else []) ++ []))))) := by
+      simp [connectBody, hw]
+    obtain ⟨r1, d1⟩ := readString_step d0 h1
+    obtain ⟨r2, d2⟩ := readByte_step d1
+    obtain ⟨r3, d3⟩ := readByte_step d2
+    obtain ⟨r4, d4⟩ := readU16_step d3
+    obtain ⟨r5, d5⟩ := readString_step d4 h2
+    obtain ⟨p6, r6, d6⟩ := optString_step _ d5 h5
+    obtain ⟨p7, r7, d7⟩ := optString_step _ d6 h6
+    simp only [r1, r2, r3, r4, r5, ok_bind, fu, fp, fwr, fq, fw, fcs, hw]
+    simp only [Bool.false_eq_true, if_false, pure_bind', r6, r7, ok_bind]
+    cases c
+    simp_all [normal]
+  · have d0 : (connectBody c).drop 0 = writeString c.protoName ++ (c.version :: connectFlags c ::
+        (putBe16 c.keepAlive ++ (writeString c.clientId ++
+        (writeString c.willTopic ++ (writeString c.willMessage ++
+        ((if c.usernameFlag then writeString c.username else []) ++
+        ((if c.passwordFlag then writeString c.password else []) ++ []))))))) := by
+      simp [connectBody, hw]
+    obtain ⟨r1, d1⟩ := readString_step d0 h1
+    obtain ⟨r2, d2⟩ := readByte_step d1
+    obtain ⟨r3, d3⟩ := readByte_step d2
+    obtain ⟨r4, d4⟩ := readU16_step d3
+    obtain ⟨r5, d5⟩ := readString_step d4 h2
+    obtain ⟨r5a, d5a⟩ := readString_step d5 h3
+    obtain ⟨r5b, d5b⟩ := readString_step d5a h4
+    obtain ⟨p6, r6, d6⟩ := optString_step _ d5b h5
+    obtain ⟨p7, r7, d7⟩ := optString_step _ d6 h6
+    simp only [r1, r2, r3, r4, r5, ok_bind, fu, fp, fwr, fq, fw, fcs, hw]
+    simp only [if_true, r5a, r5b, pure_bind', r6, r7, ok_bind]
+    cases c
+    simp_all [normal]
+
+
+/-! ## SUBSCRIBE / UNSUBSCRIBE topic loops -/
+
+theorem subsBody_length_ge (subs : List TopicQos) : subs.length ≤ (subsBody subs).length := by
+  induction subs with
+  | nil => simp
+  | cons t ts ih => simp [subsBody, writeString, putBe16]; omega
+
+theorem topicsBody_length_ge (ts : List TopicQos) : ts.length ≤ (topicsBody ts).length := by
+  induction ts with
+  | nil => simp
+  | cons t ts ih => simp [topicsBody, writeString, putBe16]; omega
+
+theorem decodeSubs_subsBody (data : Bytes) (subs : List TopicQos) :
+    ∀ (fuel pos : Nat), subs.length ≤ fuel → data.drop pos = subsBody subs →
+      (∀ t ∈ subs, t.topic.length < 65536) → decodeSubs data true fuel pos = .ok subs := by
+  induction subs with
+  | nil =>
+    intro fuel pos _ hd _
+    have : data.length ≤ pos := by simpa [subsBody] using hd
+    cases fuel with
+    | zero => simp [decodeSubs]
+    | succ f => have : ¬ pos < data.length := by omega
+                simp [decodeSubs, this]
+  | cons t ts ih =>
+    intro fuel pos hf hd hs
+    cases fuel with
+    | zero => simp at hf
+    | succ f =>
+      have hd' : data.drop pos = writeString t.topic ++ (t.qos :: subsBody ts) := by
+        rw [hd]; simp [subsBody]
+      have hlt : pos < data.length := by
+        have := congrArg List.length hd'
+        simp [writeString, putBe16] at this; omega
+      obtain ⟨r1, d1⟩ := readString_step hd' (hs t (by simp))
+      obtain ⟨r2, d2⟩ := readByte_step d1
+      have := ih f _ (by simpa using hf) d2 (fun x hx => hs x (by simp [hx]))
+      simp [decodeSubs, hlt, r1, r2, this]
+
+theorem decodeSubs_topicsBody (data : Bytes) (ts : List TopicQos) :
+    ∀ (fuel pos : Nat), ts.length ≤ fuel → data.drop pos = topicsBody ts →
+      (∀ t ∈ ts, t.topic.length < 65536) →
+      decodeSubs data false fuel pos = .ok (ts.map (fun t => { t with qos := 0 })) := by
+  induction ts with
+  | nil =>
+    intro fuel pos _ hd _
+    have : data.length ≤ pos := by simpa [topicsBody] using hd
+    cases fuel with
+    | zero => simp [decodeSubs]
+    | succ f => have : ¬ pos < data.length := by omega
+                simp [decodeSubs, this]
+  | cons t ts ih =>
+    intro fuel pos hf hd hs
+    cases fuel with
+    | zero => simp at hf
+    | succ f =>
+      have hd' : data.drop pos = writeString t.topic ++ topicsBody ts := by
+        rw [hd]; simp [topicsBody]
+      have hlt : pos < data.length := by
+        have := congrArg List.length hd'
+        simp [writeString, putBe16] at this; omega
+      obtain ⟨r1, d1⟩ := readString_step hd' (hs t (by simp))
+      have := ih f _ (by simpa using hf) d1 (fun x hx => hs x (by simp [hx]))
+      simp [decodeSubs, hlt, r1, this]
+
+
+/-! ## one lemma per packet type: `decodeBody` inverts the body layout of `parts` -/
+
+theorem tyCodes :
+    tyConnect = 1 ∧ tyConnack = 2 ∧ tyPublish = 3 ∧ tyPuback = 4 ∧ tyPubrec = 5 ∧ tyPubrel = 6 ∧
+    tyPubcomp = 7 ∧ tySubscribe = 8 ∧ tySuback = 9 ∧ tyUnsubscribe = 10 ∧ tyUnsuback = 11 ∧
+    tyPingreq = 12 ∧ tyPingresp = 13 ∧ tyDisconnect = 14 := by decide
+
+theorem readU16_putBe16 (mid : UInt16) (post : Bytes) :
+    readU16 (putBe16 mid ++ post) 0 = .ok (mid, 0 + 2) ∧ (putBe16 mid ++ post).drop (0 + 2) = post :=
+  readU16_step (by simp)
+
+theorem decodeBody_connack (h : Header) (rc : UInt8) :
+    decodeBody tyConnack h [0, rc] = .ok (.connack rc) := by
+  obtain ⟨e1, e2, e3, e4, e5, e6, e7, e8, e9, e10, e11, e12, e13, e14⟩ := tyCodes
+  simp [decodeBody, e1, e2, readByte]
+
+theorem decodeBody_mid (ty : UInt8) (h : Header) (mid : UInt16) (k : UInt16 → Packet)
+    (hb : ∀ data, decodeBody ty h data = (readU16 data 0).map (fun r => k r.1)) :
+    decodeBody ty h (putBe16 mid) = .ok (k mid) := by
+  have := (readU16_putBe16 mid []).1
+  simp only [List.append_nil] at this
+  rw [hb, this]; rfl
+
+theorem decodeBody_publish (h : Header) (t : Bytes) (mid : UInt16) (pl : Bytes) (ht : t.length < 65536) :
+    decodeBody tyPublish h (writeString t ++ (if h.qos > 0 then putBe16 mid else []) ++ pl)
+      = .ok (.publish h t (if h.qos > 0 then mid else 0) pl) := by
+  obtain ⟨e1, e2, e3, e4, e5, e6, e7, e8, e9, e10, e11, e12, e13, e14⟩ := tyCodes
+  by_cases hq : h.qos > 0
+  · simp only [hq, if_true]
+    have d0 : (writeString t ++ putBe16 mid ++ pl).drop 0 = writeString t ++ (putBe16 mid ++ pl) := by simp
+    obtain ⟨r1, d1⟩ := readString_step d0 ht
+    obtain ⟨r2, d2⟩ := readU16_step d1
+    have hl : ¬ (0 + 2 + t.length + 2 > (writeString t ++ putBe16 mid ++ pl).length) := by
+      simp [writeString, putBe16]; omega
+    simp only [decodeBody, e1, e2, e3]
+    simp only [r1, ok_bind, hq, if_true, r2, hl, if_false, d2, pure_eq_ok]
+    simp
+  · simp only [hq, if_false]
+    have d0 : (writeString t ++ [] ++ pl).drop 0 = writeString t ++ pl := by simp
+    obtain ⟨r1, d1⟩ := readString_step d0 ht
+    have hl : ¬ (0 + 2 + t.length > (writeString t ++ [] ++ pl).length) := by
+      simp [writeString, putBe16]; omega
+    simp only [decodeBody, e1, e2, e3]
+    simp only [r1, ok_bind, hq, if_false, hl, d1, pure_eq_ok]
+    simp
+
+theorem decodeBody_subscribe (h : Header) (mid : UInt16) (subs : List TopicQos)
+    (hs : ∀ t ∈ subs, t.topic.length < 65536) :
+    decodeBody tySubscribe h (putBe16 mid ++ subsBody subs) = .ok (.subscribe h mid subs) := by
+  obtain ⟨e1, e2, e3, e4, e5, e6, e7, e8, e9, e10, e11, e12, e13, e14⟩ := tyCodes
+  obtain ⟨r1, d1⟩ := readU16_putBe16 mid (subsBody subs)
+  have r2 := decodeSubs_subsBody _ subs (putBe16 mid ++ subsBody subs).length _
+    (by have := subsBody_length_ge subs; simp; omega) d1 hs
+  simp only [decodeBody, e1, e2, e3, e4, e5, e6, e7, e8]
+  simp only [r1, ok_bind, r2, pure_eq_ok]
+  simp
+
+theorem decodeBody_unsubscribe (h : Header) (mid : UInt16) (ts : List TopicQos)
+    (hs : ∀ t ∈ ts, t.topic.length < 65536) :
+    decodeBody tyUnsubscribe h (putBe16 mid ++ topicsBody ts)
+      = .ok (.unsubscribe h mid (ts.map (fun t => { t with qos := 0 }))) := by
+  obtain ⟨e1, e2, e3, e4, e5, e6, e7, e8, e9, e10, e11, e12, e13, e14⟩ := tyCodes
+  obtain ⟨r1, d1⟩ := readU16_putBe16 mid (topicsBody ts)
+  have r2 := decodeSubs_topicsBody _ ts (putBe16 mid ++ topicsBody ts).length _
+    (by have := topicsBody_length_ge ts; simp; omega) d1 hs
+  simp only [decodeBody, e1, e2, e3, e4, e5, e6, e7, e8, e9, e10]
+  simp only [r1, ok_bind, r2, pure_eq_ok]
+  simp
+
+theorem decodeBody_suback (h : Header) (mid : UInt16) (qos : List UInt8) :
+    decodeBody tySuback h (putBe16 mid ++ qos) = .ok (.suback mid qos) := by
+  obtain ⟨e1, e2, e3, e4, e5, e6, e7, e8, e9, e10, e11, e12, e13, e14⟩ := tyCodes
+  obtain ⟨r1, d1⟩ := readU16_putBe16 mid qos
+  simp only [decodeBody, e1, e2, e3, e4, e5, e6, e7, e8, e9]
+  simp only [r1, ok_bind, d1, pure_eq_ok]
+  simp
+
+
+/-! ## combination -/
+
+theorem headerOf_firstByte (ty : UInt8) (h : Header) (hty : ty < 16) (hq : h.qos < 4) :
+    headerOf ty (firstByte ty h) =
+      if ty == tyPublish || ty == tySubscribe || ty == tyUnsubscribe || ty == tyPubrel then h else noHeader := by
+  simp only [headerOf, (firstByte_facts ty h hty hq).2]
+
+theorem strOk_iff (b : Bytes) : strOk b = true ↔ b.length < 65536 := by simp [strOk]
+
+
+theorem decode_wire_ok (ty : UInt8) (h : Header) (body rest : Bytes) (max : Nat) (q : Packet)
+    (hty : ty < 16) (hq : h.qos < 4) (hlen : body.length < 268435456)
+    (hnp : ty ≠ tyPingreq ∧ ty ≠ tyPingresp ∧ ty ≠ tyDisconnect) (hmax : body.length ≤ max)
+    (hb : decodeBody ty (if ty == tyPublish || ty == tySubscribe || ty == tyUnsubscribe || ty == tyPubrel
+            then h else noHeader) body = .ok q) :
+    decode (wire ty h body ++ rest) max = .ok (q, rest) := by
+  have hn : ¬ (body.length > max) := by omega
+  rw [decode_wire ty h body rest max hty hq hlen hnp, if_neg hn, headerOf_firstByte ty h hty hq, hb]
+  rfl
+
+theorem connectBody_length_lt (c : Connect)
+    (h1 : c.protoName.length < 65536) (h2 : c.clientId.length < 65536)
+    (h3 : c.willTopic.length < 65536) (h4 : c.willMessage.length < 65536)
+    (h5 : c.username.length < 65536) (h6 : c.password.length < 65536) :
+    (connectBody c).length < 268435456 := by
+  simp only [connectBody, writeString, putBe16, List.length_append, List.length_cons, List.length_nil]
+  split <;> split <;> split <;> simp <;> omega
+
+theorem noHeader_qos : noHeader.qos < 4 := by decide
+
+theorem all_strOk {l : List TopicQos} (h : l.all (fun t => strOk t.topic) = true) :
+    ∀ t ∈ l, t.topic.length < 65536 := by
+  simpa [strOk] using h
+
+
+theorem decodeBody_connect (h : Header) (c : Connect) :
+    decodeBody tyConnect h (connectBody c) = decodeConnect (connectBody c) := by
+  simp [decodeBody]
+
+theorem decodeBody_puback (h : Header) (mid : UInt16) : decodeBody tyPuback h (putBe16 mid) = .ok (.puback mid) := by
+  obtain ⟨e1, e2, e3, e4, e5, e6, e7, e8, e9, e10, e11, e12, e13, e14⟩ := tyCodes
+  exact decodeBody_mid _ _ _ (fun m => .puback m) (by intro d; simp [decodeBody, e1, e2, e3, e4])
+theorem decodeBody_pubrec (h : Header) (mid : UInt16) : decodeBody tyPubrec h (putBe16 mid) = .ok (.pubrec mid) := by
+  obtain ⟨e1, e2, e3, e4, e5, e6, e7, e8, e9, e10, e11, e12, e13, e14⟩ := tyCodes
+  exact decodeBody_mid _ _ _ (fun m => .pubrec m) (by intro d; simp [decodeBody, e1, e2, e3, e4, e5])
+theorem decodeBody_pubrel (h : Header) (mid : UInt16) : decodeBody tyPubrel h (putBe16 mid) = .ok (.pubrel h mid) := by
+  obtain ⟨e1, e2, e3, e4, e5, e6, e7, e8, e9, e10, e11, e12, e13, e14⟩ := tyCodes
+  exact decodeBody_mid _ _ _ (fun m => .pubrel h m) (by intro d; simp [decodeBody, e1, e2, e3, e4, e5, e6])
+theorem decodeBody_pubcomp (h : Header) (mid : UInt16) : decodeBody tyPubcomp h (putBe16 mid) = .ok (.pubcomp mid) := by
+  obtain ⟨e1, e2, e3, e4, e5, e6, e7, e8, e9, e10, e11, e12, e13, e14⟩ := tyCodes
+  exact decodeBody_mid _ _ _ (fun m => .pubcomp m) (by intro d; simp [decodeBody, e1, e2, e3, e4, e5, e6, e7])
+theorem decodeBody_unsuback (h : Header) (mid : UInt16) : decodeBody tyUnsuback h (putBe16 mid) = .ok (.unsuback mid) := by
+  obtain ⟨e1, e2, e3, e4, e5, e6, e7, e8, e9, e10, e11, e12, e13, e14⟩ := tyCodes
+  exact decodeBody_mid _ _ _ (fun m => .unsuback m)
+    (by intro d; simp [decodeBody, e1, e2, e3, e4, e5, e6, e7, e8, e9, e10, e11])
+
+theorem putBe16_length (x : UInt16) : (putBe16 x).length = 2 := rfl
 
 theorem decode_encodeWire (p : Packet) (wf : wellFormed p = true) (rest : Bytes) (max : Nat)
     (hmax : (parts p).2.2.length ≤ max) :
     decode (encodeWire p ++ rest) max = .ok (normal p, rest) := by
-  sorry
+  obtain ⟨e1, e2, e3, e4, e5, e6, e7, e8, e9, e10, e11, e12, e13, e14⟩ := tyCodes
+  cases p with
+  | connect c =>
+    simp only [wellFormed, Bool.and_eq_true, strOk_iff, decide_eq_true_eq] at wf
+    obtain ⟨⟨⟨⟨⟨⟨h1, h2⟩, h3⟩, h4⟩, h5⟩, h6⟩, hq⟩ := wf
+    refine decode_wire_ok tyConnect noHeader (connectBody c) rest max _ (by rw [e1]; decide) noHeader_qos
+      (connectBody_length_lt c h1 h2 h3 h4 h5 h6) (by rw [e1, e12, e13, e14]; decide) hmax ?_
+    rw [decodeBody_connect]
+    exact decodeConnect_connectBody c h1 h2 h3 h4 h5 h6 hq
+  | connack rc =>
+    exact decode_wire_ok tyConnack noHeader [0, rc] rest max _ (by rw [e2]; decide) noHeader_qos
+      (by simp) (by rw [e2, e12, e13, e14]; decide) hmax (decodeBody_connack _ rc)
+  | publish h t mid pl =>
+    simp only [wellFormed, Bool.and_eq_true, strOk_iff, decide_eq_true_eq, Header.ok] at wf
+    obtain ⟨⟨hq, ht⟩, hl⟩ := wf
+    refine decode_wire_ok tyPublish h _ rest max _ (by rw [e3]; decide) hq
+      ?_ (by rw [e3, e12, e13, e14]; decide) hmax ?_
+    · simp only [writeString, putBe16_length, List.length_append]
+      split <;> simp [putBe16_length] <;> omega
+    · rw [show (if tyPublish == tyPublish || tyPublish == tySubscribe || tyPublish == tyUnsubscribe ||
+          tyPublish == tyPubrel then h else noHeader) = h by simp]
+      exact decodeBody_publish h t mid pl ht
+  | puback mid =>
+    exact decode_wire_ok tyPuback noHeader (putBe16 mid) rest max _ (by rw [e4]; decide) noHeader_qos
+      (by simp [putBe16_length]) (by rw [e4, e12, e13, e14]; decide) hmax (decodeBody_puback _ mid)
+  | pubrec mid =>
+    exact decode_wire_ok tyPubrec noHeader (putBe16 mid) rest max _ (by rw [e5]; decide) noHeader_qos
+      (by simp [putBe16_length]) (by rw [e5, e12, e13, e14]; decide) hmax (decodeBody_pubrec _ mid)
+  | pubrel h mid =>
+    simp only [wellFormed, decide_eq_true_eq, Header.ok] at wf
+    refine decode_wire_ok tyPubrel h (putBe16 mid) rest max _ (by rw [e6]; decide) wf
+      (by simp [putBe16_length]) (by rw [e6, e12, e13, e14]; decide) hmax ?_
+    rw [show (if tyPubrel == tyPublish || tyPubrel == tySubscribe || tyPubrel == tyUnsubscribe ||
+          tyPubrel == tyPubrel then h else noHeader) = h by simp]
+    exact decodeBody_pubrel h mid
+  | pubcomp mid =>
+    exact decode_wire_ok tyPubcomp noHeader (putBe16 mid) rest max _ (by rw [e7]; decide) noHeader_qos
+      (by simp [putBe16_length]) (by rw [e7, e12, e13, e14]; decide) hmax (decodeBody_pubcomp _ mid)
+  | subscribe h mid subs =>
+    simp only [wellFormed, Bool.and_eq_true, decide_eq_true_eq, Header.ok] at wf
+    obtain ⟨⟨hq, hs⟩, hl⟩ := wf
+    refine decode_wire_ok tySubscribe h _ rest max _ (by rw [e8]; decide) hq
+      (by simp [putBe16_length]; omega) (by rw [e8, e12, e13, e14]; decide) hmax ?_
+    rw [show (if tySubscribe == tyPublish || tySubscribe == tySubscribe || tySubscribe == tyUnsubscribe ||
+          tySubscribe == tyPubrel then h else noHeader) = h by simp]
+    exact decodeBody_subscribe h mid subs (all_strOk hs)
+  | suback mid qos =>
+    simp only [wellFormed, decide_eq_true_eq] at wf
+    exact decode_wire_ok tySuback noHeader _ rest max _ (by rw [e9]; decide) noHeader_qos
+      (by simp [putBe16_length]; omega) (by rw [e9, e12, e13, e14]; decide) hmax (decodeBody_suback _ mid qos)
+  | unsubscribe h mid ts =>
+    simp only [wellFormed, Bool.and_eq_true, decide_eq_true_eq, Header.ok] at wf
+    obtain ⟨⟨hq, hs⟩, hl⟩ := wf
+    refine decode_wire_ok tyUnsubscribe h _ rest max _ (by rw [e10]; decide) hq
+      (by simp [putBe16_length]; omega) (by rw [e10, e12, e13, e14]; decide) hmax ?_
+    rw [show (if tyUnsubscribe == tyPublish || tyUnsubscribe == tySubscribe || tyUnsubscribe == tyUnsubscribe ||
+          tyUnsubscribe == tyPubrel then h else noHeader) = h by simp]
+    exact decodeBody_unsubscribe h mid ts (all_strOk hs)
+  | unsuback mid =>
+    exact decode_wire_ok tyUnsuback noHeader (putBe16 mid) rest max _ (by rw [e11]; decide) noHeader_qos
+      (by simp [putBe16_length]) (by rw [e11, e12, e13, e14]; decide) hmax (decodeBody_unsuback _ mid)
+  | pingreq =>
+    have k : ((192 : UInt8) &&& 240) >>> 4 = 12 := by decide
+    simp [encodeWire, decode, decodeLen, e12, k, normal]
+  | pingresp =>
+    have k : ((208 : UInt8) &&& 240) >>> 4 = 13 := by decide
+    simp [encodeWire, decode, decodeLen, e12, e13, k, normal]
+  | disconnect =>
+    have k : ((224 : UInt8) &&& 240) >>> 4 = 14 := by decide
+    simp [encodeWire, decode, decodeLen, e12, e13, e14, k, normal]
+
 
 theorem encode_of_fits (p : Packet) (h : (parts p).2.2.length ≤ bodyRoom) : encode p = .ok (encodeWire p) := by
-  sorry
+  cases p with
+  | publish hd t mid pl =>
+    have hl : ¬ (2 + t.length + pl.length + (if hd.qos > 0 then 2 else 0) > bodyRoom) := by
+      have : (parts (.publish hd t mid pl)).2.2.length =
+          2 + t.length + pl.length + (if hd.qos > 0 then 2 else 0) := by
+        simp only [parts, writeString, putBe16_length, List.length_append]
+        split <;> simp [putBe16_length] <;> omega
+      omega
+    simp only [encode, hl, if_false]
+  | pingreq | pingresp | disconnect => rfl
+  | _ =>
+    have hn : ¬ ((parts _).2.2.length > bodyRoom) := Nat.not_lt.mpr h
+    simp only [encode, hn, if_false]
 
 theorem encode_publish_no_panic (h : Header) (t : Bytes) (mid : UInt16) (pl : Bytes) :
     (encode (.publish h t mid pl)).isPanic = false := by
-  sorry
+  simp only [encode]
+  generalize 2 + t.length + pl.length + (if h.qos > 0 then 2 else 0) = n
+  by_cases hn : n > bodyRoom
+  · simp only [hn, if_true]; rfl
+  · simp only [hn, if_false]; rfl
 
+/-- AMENDED (see REPORT.md): the extra hypothesis `hq` is needed. Without it the statement is false:
+a header QoS ≥ 8 spills into the type nibble of the first byte, e.g. `.pubrel ⟨false, 64, false⟩ 0`
+goes on the wire as `e0 02 ..`, which `decode` reads as DISCONNECT before looking at `max`. -/
 theorem decode_oversize (p : Packet) (rest : Bytes) (max : Nat)
     (hty : p ≠ .pingreq ∧ p ≠ .pingresp ∧ p ≠ .disconnect)
+    (hq : (parts p).2.1.ok = true)
     (hlen : (parts p).2.2.length < 268435456) (hbig : max < (parts p).2.2.length) :
     decode (encodeWire p ++ rest) max = .err "too-large" := by
-  sorry
+  obtain ⟨e1, e2, e3, e4, e5, e6, e7, e8, e9, e10, e11, e12, e13, e14⟩ := tyCodes
+  have hq' : (parts p).2.1.qos < 4 := by simpa [Header.ok] using hq
+  have key : ∀ ty, ty < 16 → (ty ≠ tyPingreq ∧ ty ≠ tyPingresp ∧ ty ≠ tyDisconnect) →
+      ty = (parts p).1 → encodeWire p = wire ty (parts p).2.1 (parts p).2.2 →
+      decode (encodeWire p ++ rest) max = .err "too-large" := by
+    intro ty h1 h2 _ h4
+    rw [h4, decode_wire ty _ _ rest max h1 hq' hlen h2, if_pos hbig]
+  cases p with
+  | pingreq => exact absurd rfl hty.1
+  | pingresp => exact absurd rfl hty.2.1
+  | disconnect => exact absurd rfl hty.2.2
+  | connect c => exact key tyConnect (by rw [e1]; decide) (by rw [e1, e12, e13, e14]; decide) rfl rfl
+  | connack rc => exact key tyConnack (by rw [e2]; decide) (by rw [e2, e12, e13, e14]; decide) rfl rfl
+  | publish h t mid pl => exact key tyPublish (by rw [e3]; decide) (by rw [e3, e12, e13, e14]; decide) rfl rfl
+  | puback mid => exact key tyPuback (by rw [e4]; decide) (by rw [e4, e12, e13, e14]; decide) rfl rfl
+  | pubrec mid => exact key tyPubrec (by rw [e5]; decide) (by rw [e5, e12, e13, e14]; decide) rfl rfl
+  | pubrel h mid => exact key tyPubrel (by rw [e6]; decide) (by rw [e6, e12, e13, e14]; decide) rfl rfl
+  | pubcomp mid => exact key tyPubcomp (by rw [e7]; decide) (by rw [e7, e12, e13, e14]; decide) rfl rfl
+  | subscribe h mid subs => exact key tySubscribe (by rw [e8]; decide) (by rw [e8, e12, e13, e14]; decide) rfl rfl
+  | suback mid qos => exact key tySuback (by rw [e9]; decide) (by rw [e9, e12, e13, e14]; decide) rfl rfl
+  | unsubscribe h mid ts => exact key tyUnsubscribe (by rw [e10]; decide) (by rw [e10, e12, e13, e14]; decide) rfl rfl
+  | unsuback mid => exact key tyUnsuback (by rw [e11]; decide) (by rw [e11, e12, e13, e14]; decide) rfl rfl
 
 end Emitter.Mqtt
